@@ -133,6 +133,21 @@ Theorem source_shape_as_modelled :
 Proof. exact source_shape. Qed.
 Print Assumptions source_shape_as_modelled.
 
+(** The order among validators with equal shares (sort.SliceStable with a non-strict comparator:
+    algorithm-dependent above 20 elements) is immaterial (round 2): for ANY arrangement of the
+    snapshot's validators the entries are a permutation of the projection, with the same sum bounds
+    and the same exact gate. *)
+Theorem sent_content_independent_of_tie_order : forall sn c vs',
+  nonneg (sn_vals sn) -> Permutation vs' (sn_vals sn) ->
+  let total := zsum (map v_share (sn_vals sn)) in
+  let out := flat_map (entries c total) vs' in
+  Permutation out (transform sn c) /\
+  Permutation out (flat_map (ideal_entry c total) (sn_vals sn)) /\
+  0 <= zsum (map snd out) <= 4294967296 /\
+  (is_enough (map snd out) = true <-> 2 ^ 33 / 3 <= zsum (map snd out)).
+Proof. exact any_order. Qed.
+Print Assumptions sent_content_independent_of_tie_order.
+
 (** "has an account on every active remote chain", down to the comparison of the ids (round 2).
     evm Keeper.MissingChains — the only thing behind ValidatorSupportsAllChains — reports exactly the
     ACTIVE chains whose reference id does not occur, byte for byte, among the ids it is given, in
@@ -175,6 +190,7 @@ Theorem source_ids_as_modelled :
   Gen.C10.missing_chains_normalising_calls = [] /\
   Gen.C10.supports_all_input_element = "v.GetChainReferenceID()"%string /\
   Gen.C10.supports_all_result = "len(missingChains) == 0"%string /\
+  Gen.C10.supports_all_returns = ["false"; "len(missingChains) == 0"]%string /\
   Gen.C10.supports_all_normalising_calls = [] /\
   Gen.C10.xchain_type = "evm"%string /\
   Gen.C10.callers_of_SaveModifiedSnapshot = [] /\
@@ -183,6 +199,26 @@ Theorem source_ids_as_modelled :
   Gen.C10.callers_of_TriggerSnapshotBuild = ["x/skyway/keeper:addValidators"; "x/valset:EndBlock"]%string.
 Proof. exact source_ids_shape. Qed.
 Print Assumptions source_ids_as_modelled.
+
+(** Every sender has the shape of [CSend] (translator, round 2): the three functions that let a
+    valset leave for a remote chain each guard the valset they use with isEnoughToReachConsensus and
+    return when it fails; nobody else calls SendValsetMsgForChain. *)
+Theorem source_gates_as_modelled :
+  Gen.C10.quorum_gates =
+    ["PublishValsetToChain: valset valset from parameter; gate on valset returns=true before use=true";
+     "deploySmartContractToChain: valset valset from transformSnapshotToCompass; gate on valset returns=true before use=true";
+     "justInTimeValsetUpdate: valset latestValset from transformSnapshotToCompass; gate on latestValset returns=true before use=true"]%string /\
+  Gen.C10.projection_calls =
+    ["GetValsetByID: transformSnapshotToCompass(snapshot, req.GetChainReferenceID(), logger)";
+     "PublishSnapshotToAllChains: transformSnapshotToCompass(snapshot, chain.GetChainReferenceID(), logger)";
+     "attestTransactionIntegrity: transformSnapshotToCompass(snapshot, chainReferenceID, logger)";
+     "deploySmartContractToChain: transformSnapshotToCompass(snapshot, chainInfo.GetChainReferenceID(), logger)";
+     "justInTimeValsetUpdate: transformSnapshotToCompass(latestSnapshot, chainReferenceID, k.Logger(sdkCtx))"]%string /\
+  Gen.C10.callers_of_SendValsetMsgForChain =
+    ["x/evm/keeper:PublishValsetToChain"; "x/evm/keeper:justInTimeValsetUpdate"]%string /\
+  Gen.C10.callers_of_PublishValsetToChain = ["x/evm/keeper:PublishSnapshotToAllChains"]%string.
+Proof. exact source_gates_shape. Qed.
+Print Assumptions source_gates_as_modelled.
 
 (** When a snapshot is stored (round 2): isNewSnapshotWorthy is part of the model ([worthy]), so a
     history consists of environment changes, TriggerSnapshotBuild and SetSnapshotOnChain only — the
@@ -219,6 +255,30 @@ Theorem unstored_build_leaves_close_snapshot : forall cur new,
      forall e, In e (v_infos c) -> exists e', In e' (v_infos n) /\ acc_key e' = acc_key e).
 Proof. exact unstored_is_close. Qed.
 Print Assumptions unstored_build_leaves_close_snapshot.
+
+(** isNewSnapshotWorthy / TriggerSnapshotBuild have the shape [worthy] / [rstep] follow (translator). *)
+Theorem source_worthy_as_modelled :
+  Gen.C10.worthy_return_true_conditions =
+    ["currentSnapshot == nil";
+     "len(currentSnapshot.GetValidators()) != len(newSnapshot.GetValidators())";
+     "_, ok := currentMap[val.GetAddress().String()]; !ok";
+     "!sortedCurrent[i].GetAddress().Equals(sortedNew[i].GetAddress())";
+     "percentageCurrent.Sub(percentageNow).Abs().MustFloat64() >= 0.01";
+     "len(currentVal.ExternalChainInfos) != len(newVal.ExternalChainInfos)";
+     "!ok";
+     "len(newv.Traits) != len(currv.Traits)";
+     "_, fnd := newTraitMap[k]; !fnd"]%string /\
+  Gen.C10.worthy_sort_less = "ret[i].ShareCount.LT(ret[j].ShareCount)"%string /\
+  Gen.C10.worthy_fractions =
+    ["percentageCurrent := sdkmath.LegacyNewDecFromInt(sortedCurrent[i].ShareCount).QuoInt(currentSnapshot.TotalShares)";
+     "percentageNow := sdkmath.LegacyNewDecFromInt(sortedNew[i].ShareCount).QuoInt(newSnapshot.TotalShares)"]%string /\
+  Gen.C10.worthy_account_key =
+    "fmt.Sprintf(""%s-%s-%s"", acc.GetChainReferenceID(), acc.GetChainType(), acc.GetAddress())"%string /\
+  Gen.C10.trigger_build_calls =
+    ["createNewSnapshot"; "GetCurrentSnapshot"; "isNewSnapshotWorthy"; "setSnapshotAsCurrent"; "jailReasonStore"]%string /\
+  Gen.C10.trigger_build_guard = "if !worthy { return nil, nil }"%string.
+Proof. exact source_worthy_shape. Qed.
+Print Assumptions source_worthy_as_modelled.
 
 (** The float test of isNewSnapshotWorthy — the 18-decimal difference converted to the nearest
     binary64 and compared with the binary64 nearest to 0.01 — is exactly the integer test of the
